@@ -145,22 +145,6 @@ Definition c4_check (q : query) (a : c4s) (ob : bobs) : bool :=
                  end
              end) (q_ids q).
 
-Fixpoint c04_go (w : world) (q : query) (a : c4s) (items : list item) (tr : list bobs) : bool :=
-  match items with
-  | [] => match tr with [] => true | _ => false end
-  | IRestart :: r => c04_go w q a r tr
-  | IBlock ops :: r =>
-      match tr with
-      | [] => false
-      | ob :: tr' =>
-          match c4_timeouts (c4_txs w (Some a) ops (o_rc ob)) ob with
-          | None => false
-          | Some a' => c4_check q a' ob && c04_go w q a' r tr'
-          end
-      end
-  end.
-Definition c04_b (w : world) (q : query) (items : list item) (tr : list bobs) : bool := c04_go w q c4_init items tr.
-
 (** * C02: index order, counters, delivery *)
 Record c2s := {
   c2_nreq : list ((svc * svc) * N);          (* accepted requests per pair *)
@@ -398,7 +382,11 @@ Definition c6_check (w : world) (q : query) (h : N) (a : c6s) (prev : option bob
              (if Nat.eqb (listed_in ob i) 0 then true else (e =? h) && negb (e =? 0))) (c6_kids a) &&
   forallb (fun p : gid * N =>
              if (snd p =? h) && negb (snd p =? 0)
-             then match obs_gst q ob (fst p) with Some (Some s) => negb (s =? ST_BEGIN) | _ => true end
+             then match obs_gst q ob (fst p) with
+                  | Some (Some s) => negb (s =? ST_BEGIN)
+                  | Some None => false          (* a group whose child was accepted exists *)
+                  | None => true
+                  end
              else true) (c6_grp a).
 
 Fixpoint c06_go (w : world) (q : query) (h : N) (a : c6s) (prev : option bobs) (items : list item) (tr : list bobs) : bool :=
@@ -414,6 +402,40 @@ Fixpoint c06_go (w : world) (q : query) (h : N) (a : c6s) (prev : option bobs) (
       end
   end.
 Definition c06_b (w : world) (q : query) (items : list item) (tr : list bobs) : bool := c06_go w q 2 c6_init None items tr.
+
+(** * C04, continued: the expiry of a registered request is an event of the history whether or not the
+    implementation announces it: the registrations are those of the C06 monitor ([c6_txs]); a registered id
+    that reaches its height without an accepted receipt and is still BEGIN takes the [timeout] transition *)
+Definition c4_expiries (h : N) (e : c6s) (acc : option c4s) : option c4s :=
+  fold_left (fun acc p =>
+               match acc with
+               | None => None
+               | Some a =>
+                   let i := fst (p : txid * c6e) in
+                   if (c6_exp (snd p) =? h) && negb (c6_rcv (snd p)) then
+                     match alook i (c4_st a) with
+                     | Some s => if s =? ST_BEGIN then Some (Build_c4s (aput i ST_BEGIN_ROLLBACK (c4_st a)) (c4_kids a)) else Some a
+                     | None => Some a
+                     end
+                   else Some a
+               end) (c6_tx e) acc.
+
+Fixpoint c04_go (w : world) (q : query) (h : N) (a : c4s) (e : c6s) (items : list item) (tr : list bobs) : bool :=
+  match items with
+  | [] => match tr with [] => true | _ => false end
+  | IRestart :: r => c04_go w q h a e r tr
+  | IBlock ops :: r =>
+      match tr with
+      | [] => false
+      | ob :: tr' =>
+          let e' := c6_txs w (h + 1) e ops (o_rc ob) in
+          match c4_expiries (h + 1) e' (c4_timeouts (c4_txs w (Some a) ops (o_rc ob)) ob) with
+          | None => false
+          | Some a' => c4_check q a' ob && c04_go w q (h + 1) a' e' r tr'
+          end
+      end
+  end.
+Definition c04_b (w : world) (q : query) (items : list item) (tr : list bobs) : bool := c04_go w q 2 c4_init c6_init items tr.
 
 (** * Prop-level readings of the four predicates (the same recursions; see Proofs/IbtpMonProofs.v for
     the equivalences) *)
